@@ -234,7 +234,7 @@ def _term(node, env):
 
 
 def mirror_semantics(fn):
-    """evaluate make_symmetric / make_skew_symmetric symbolically.
+    """evaluate make_symmetric / make_skew_symmetric over index terms (abstract interpretation, no execution).
     -> dict with the terms of the final (r, c, v) and the scatter stores"""
     env = {}
     stores = []
